@@ -58,18 +58,7 @@ def cases(draw, tier):
           'input_seed': 0}
 
 
-def _sharer_groups(mspec):
-  """Lists of output names of the ops consuming one shared constant (tensor or buffer)."""
-  by_const = {}
-  for si, sg in enumerate(mspec['subgraphs']):
-    for n in sg['nodes']:
-      for t in set(x for x in n['in'] if x >= 0):
-        tt = sg['tensors'][t]
-        if tt['kind'] != 'const' or tt['dtype'] != 'f32':
-          continue
-        key = tuple(tt['share']) if tt.get('share') is not None else (si, t)
-        by_const.setdefault(key, []).append(sg['tensors'][n['out'][0]]['name'])
-  return [sorted(set(v)) for v in by_const.values() if len(set(v)) >= 2]
+_sharer_groups = G.sharer_groups
 
 
 def check_case(case):
